@@ -216,6 +216,10 @@ class Program:
         self._load()
         self._link()
         if normalise:
+            from .inline import normalise_accumulators
+            for fi in self.functions.values():
+                if fi.parent is None:
+                    normalise_accumulators(fi.node)
             from .inline import Inliner, load_reference
             ref = load_reference()
             if ref is not None:
